@@ -271,16 +271,18 @@ vox_write_block (SF_PRIVATE *psf, IMA_OKI_ADPCM *pvox, const short *ptr, int len
 {	int	indx = 0, k ;
 
 	while (indx < len)
-	{	pvox->pcm_count = (len - indx > IMA_OKI_ADPCM_PCM_LEN) ? IMA_OKI_ADPCM_PCM_LEN : len - indx ;
+	{	int count = (len - indx > IMA_OKI_ADPCM_PCM_LEN) ? IMA_OKI_ADPCM_PCM_LEN : len - indx ;
 
+		pvox->pcm_count = count ;
 		memcpy (pvox->pcm, &(ptr [indx]), pvox->pcm_count * sizeof (short)) ;
 
+		/* The encoder pads an odd block with a zero sample and counts it : that is not one of the caller's. */
 		ima_oki_adpcm_encode_block (pvox) ;
 
 		if ((k = (int) psf_fwrite (pvox->codes, 1, pvox->code_count, psf)) != pvox->code_count)
 			psf_log_printf (psf, "*** Warning : short write (%d != %d).\n", k, pvox->code_count) ;
 
-		indx += pvox->pcm_count ;
+		indx += count ;
 		} ;
 
 	return indx ;
